@@ -162,7 +162,8 @@ PROPS = {
     "C13": dict(
         stages=[dict(test="TestC13Signing", quick=(16, 25), thorough=(16, 1500), timeout=dict(quick=900, thorough=3300)),
                 dict(test="TestC13Oracle", quick=(8, 30), thorough=(16, 2500), timeout=dict(quick=900, thorough=3300)),
-                dict(test="TestC13Tunnel", quick=(4, 30), thorough=(8, 1500), timeout=dict(quick=900, thorough=3300))],
+                dict(test="TestC13Tunnel", quick=(4, 30), thorough=(8, 1500), timeout=dict(quick=900, thorough=3300)),
+                dict(test="TestC13Transition", pkg="c18", quick=(16, 14), thorough=(8, 600), timeout=dict(quick=900, thorough=3300))],
         rule="Oracle: 3 data sources with drawn fee vectors over 3 denoms (free, single, multi, and an 18-decimals style denom whose fee fits 64 bits while fee x ask_count does not), scripts asking 1-4 sources incl. repeats, ask 1-3, fee "
              "limit exact / one denom -1 / +1 / zero / big / first denom only / one denom dropped, a poor payer funded exactly, one short, or only for the "
              "first k-1 sources, MsgEditDataSource by the owner (or somebody else) moving a source's treasury to another account and keeping or replacing its fee (the fee model follows accepted messages, not the stored record); non-trivial = a request at a limit boundary or a balance running out midway. Signing: TSS history (see C05) with fee_per_signer in {0, 10uband, 7uband, 3uband+2uatom}, fee limits enough/exact/one-less/zero/"
